@@ -76,14 +76,14 @@ func (c vc10CountingDAG) AddMany(ctx context.Context, nds []ipld.Node) error {
 // monitor nevertheless *measures* the patterns on the executed history (see
 // vc10World.fired), so a generator slip cannot hide behind a stratum name.
 type vc10Gen struct {
-	name          string
-	init          string // native | inline | foreign | identity (see vc10History)
-	writeAt       int  // 0 none, 1 only at the current offset, 2 anywhere except the start of the pending write run, 3 anywhere incl. run start, 4 mostly run start
-	absSeekAfter  bool // every WriteAt at a non-current offset is directly followed by Seek(x, SeekStart)
-	seekEnd       bool // Seek(off != 0, SeekEnd)
-	seekNeg       bool // Seek to a negative target
-	writeAfterRd  bool // Write directly after a Read that advanced the offset (no Seek between)
-	staleReader   bool // Truncate / extending Seek while a reader obtained by an earlier Read is alive, then Read
+	name         string
+	init         string // native | inline | foreign | identity (see vc10History)
+	writeAt      int    // 0 none, 1 only at the current offset, 2 anywhere except the start of the pending write run, 3 anywhere incl. run start, 4 mostly run start
+	absSeekAfter bool   // every WriteAt at a non-current offset is directly followed by Seek(x, SeekStart)
+	seekEnd      bool   // Seek(off != 0, SeekEnd)
+	seekNeg      bool   // Seek to a negative target
+	writeAfterRd bool   // Write directly after a Read that advanced the offset (no Seek between)
+	staleReader  bool   // Truncate / extending Seek while a reader obtained by an earlier Read is alive, then Read
 }
 
 var vc10Strata = []vc10Gen{
@@ -161,7 +161,7 @@ type vc10World struct {
 	fired       map[string]bool
 
 	sawWriteAtNonCur, sawSeekWhence, sawDeepFlush, readBackOK bool
-	ops                                                      int
+	ops                                                       int
 }
 
 func (w *vc10World) cur() int64  { return w.states[0].off }
